@@ -176,3 +176,20 @@ Proof.
     apply (proj2 H) in n. discriminate.
   - exfalso. apply (proj1 H); auto.
 Qed.
+
+(* two constrained lists side by side *)
+Lemma filter_mem_app2 o1 o2 l1 l2 :
+  filter (fun x => memz x o1) l1 = o1 -> filter (fun x => memz x o2) l2 = o2 ->
+  (forall x, In x l1 -> ~ In x l2) ->
+  filter (fun x => memz x (o1 ++ o2)) (l1 ++ l2) = o1 ++ o2.
+Proof.
+  intros H1 H2 Hd. rewrite filter_app. f_equal.
+  - transitivity (filter (fun x => memz x o1) l1); [|exact H1].
+    apply filter_ext_in. intros x Hx. rewrite memz_app.
+    assert (memz x o2 = false) as ->; [|apply orb_false_r].
+    apply memz_false. intros H. apply (filter_mem_sub _ _ H2) in H. now apply (Hd x).
+  - transitivity (filter (fun x => memz x o2) l2); [|exact H2].
+    apply filter_ext_in. intros x Hx. rewrite memz_app.
+    assert (memz x o1 = false) as ->; [|reflexivity].
+    apply memz_false. intros H. apply (filter_mem_sub _ _ H1) in H. now apply (Hd x H).
+Qed.
